@@ -243,6 +243,15 @@ struct MutSpace {
       WrLE(b + oi, a); WrLE(b + oj, c);
       desc = verif::Fmt("\"mut\": \"word-pair\", \"off\": %u, \"role\": \"%s\", \"value\": \"%s\", \"off2\": %u, \"role2\": \"%s\", \"value2\": \"%s\"", oi, RoleAt(s, oi), WordValName(vi), oj, RoleAt(s, oj), WordValName(vj));
    }
+   // decomposes a pair case (local index k) into its two single word mutations (index into pairOffs, value index); false if k is not a pair case
+   bool PairParts(size_t k, size_t & i, int & vi, size_t & j, int & vj) const
+   {
+      const size_t first = 1 + nTrunc + nWord + nType + nByte + nNul; if (k < first || k >= first + nPair) return false; k -= first;
+      const size_t VV = (size_t)kNumWordVals * kNumWordVals; const size_t pairIdx = k / VV; vi = (int)((k % VV) / kNumWordVals); vj = (int)(k % kNumWordVals);
+      const size_t P = pairOffs.size(); i = 0; size_t rest = pairIdx; while (rest >= P - 1 - i) { rest -= P - 1 - i; i++; } j = i + 1 + rest; return true;
+   }
+   // the single word mutation (pairOffs[i] := value vi) applied to the seed
+   void SingleOf(const Seed & s, size_t i, int vi, std::string & out) const { out = s.bytes; uint8 * b = (uint8 *)&out[0]; const uint32 o = pairOffs[i]; WrLE(b + o, WordVal(vi, N, o, RdLE(b + o))); }
    static const char * RoleAt(const Seed & s, uint32 off) { for (size_t i = 0; i < s.walk.words.size(); i++) if (s.walk.words[i].off == off) return RoleName(s.walk.words[i].role); return "unaligned-or-data"; }
 };
 
